@@ -952,6 +952,10 @@ func main() {
 		divergedSession(run, i)
 	}
 	run.FloorCounter("diverged_session_resumes", 30)
+	for i, n := 0, run.N(64, 1000); i < n; i++ {
+		sizeDrivenUpload(run, i)
+	}
+	run.FloorCounter("size_driven_uploads_committed", 40)
 	for i := 0; i < 32; i++ {
 		knownToOneAndFailing(run, i)
 	}
